@@ -12,7 +12,7 @@
    /repo on every run; the tables are regenerated from the source on every run. *)
 From Verif Require Import Css.Defaulting Css.DefaultingSpec Css.DefaultingTyping Css.DefaultingProofs Css.DefaultingTables
                           Css.DefaultingEquations Css.DefaultingTotal Css.DefaultingSpecProofs
-                          Css.DefaultingCopy Css.DefaultingCopyProofs.
+                          Css.DefaultingCopy Css.DefaultingCopyProofs Css.DefaultingMore.
 From Coq Require Import QArith List.
 Import ListNotations.
 Open Scope N_scope.
@@ -487,3 +487,23 @@ Example example_values :
               Ok (Some (VDim "" 8 U_Px)); Ok (Some (VDim "" 0 U_Px)); Ok (Some (VDim "" 0 U_Px))]) = true
   /\ List.length (snd (run_ops exactQ true example_tree empty_styles (init_ops example_tree ++ get_ops example_gets))) = 19%nat.
 Proof. split; vm_compute; reflexivity. Qed.
+
+(* final round: laws of the relative font weights (CSS Fonts 3), for EVERY integer weight *)
+Theorem C04_bolder_monotone : forall a b : Z, (a <= b)%Z -> (css_bolder a <= css_bolder b)%Z.
+Proof. exact css_bolder_monotone. Qed.
+Print Assumptions C04_bolder_monotone.
+
+Theorem C04_lighter_monotone : forall a b : Z, (a <= b)%Z -> (css_lighter a <= css_lighter b)%Z.
+Proof. exact css_lighter_monotone. Qed.
+Print Assumptions C04_lighter_monotone.
+
+Theorem C04_relative_weight_bounds : forall w : Z, (100 <= w <= 900)%Z ->
+  (w <= css_bolder w <= 900)%Z /\ (100 <= css_lighter w <= w)%Z /\
+  In (css_bolder w) css_weights /\ In (css_lighter w) css_weights.
+Proof. exact css_relative_weight_bounds. Qed.
+Print Assumptions C04_relative_weight_bounds.
+
+Theorem C04_relative_weight_saturates : forall w : Z,
+  css_bolder (css_bolder (css_bolder w)) = 900%Z /\ css_lighter (css_lighter (css_lighter w)) = 100%Z.
+Proof. exact css_relative_weight_saturates. Qed.
+Print Assumptions C04_relative_weight_saturates.
